@@ -8,6 +8,14 @@ start or in the middle of the block holding P).  Reference = the same history on
 "always retranslate" configuration (jit_maxline = 1, max_exec_per_call = 1, translation cache cleared before every
 instruction).  Judged: final registers and memory, and the registers logged by a breakpoint after every execution
 of P.
+Two further deterministic strata: (1) x86_32 writers that are multi-irblock instructions — REP STOSB/STOSD/MOVSB/MOVSD
+with counts 1..5 overwriting P's first / middle / last byte, its immediate or the whole instruction, placed after P in
+the same block, immediately before P, or in another block, with no other memory access between the write and the next
+execution of P; (2) "host-tail": P is the branch ending a contiguous range of translated code (the bytes after it are
+not translated yet); the host overwrites P's first or last byte while stopped on a breakpoint, directly after an
+invalidation step (none / add_breakpoint on a translated block start / set_breakpoint on a translated block start /
+add_breakpoint in the middle of a translated block / an EXCEPT_CODE_AUTOMOD event handled one iteration earlier after
+which nothing new was translated).
 """
 import random
 
@@ -159,6 +167,133 @@ after:
 """,
 }
 
+# ---- writers that are multi-irblock instructions (x86 REP STOS / REP MOVS) -----------------------------------------
+# EBP = address of the first overwritten byte (preset, never modified), EDX = loop counter, ECX/ESI/EDI belong to the
+# string instruction.  No memory access between the REP instruction and the next execution of P.
+X86_REP = {
+    "rep-same-block-after": """
+main:
+    MOV EDX, 3
+    XOR EBX, EBX
+    CLD
+loop:
+    MOV EAX, 0x11223344
+    ADD EBX, EAX
+    {store}
+after:
+    DEC EDX
+    JNZ loop
+    RET
+""",
+    "rep-next-instruction": """
+main:
+    MOV EDX, 3
+    XOR EBX, EBX
+    CLD
+    JMP patched
+loop:
+    {store}
+patched:
+    MOV EAX, 0x11223344
+    ADD EBX, EAX
+after:
+    DEC EDX
+    JNZ loop
+    RET
+""",
+    "rep-other-block": """
+main:
+    MOV EDX, 3
+    XOR EBX, EBX
+    CLD
+loop:
+    MOV EAX, 0x11223344
+    ADD EBX, EAX
+after:
+    CMP EDX, 2
+    JNZ skip
+    {store}
+skip:
+    DEC EDX
+    JNZ loop
+    RET
+""",
+}
+REP_UNIT = {"STOSB": 1, "STOSD": 4, "MOVSB": 1, "MOVSD": 4}
+# (instruction, byte offset in P, count, value): every result is a valid `MOV EAX|EBX, imm32`
+REP_PATCHES = [("STOSB", 4, 1, 0x7F), ("STOSB", 1, 4, 0x22), ("STOSB", 0, 1, 0xBB), ("STOSB", 0, 5, 0xBB),
+               ("STOSB", 2, 1, 0x00), ("STOSB", 1, 3, 0x5A), ("STOSB", 2, 3, 0xC3),
+               ("MOVSB", 2, 1, 0x99), ("MOVSB", 4, 1, 0x01), ("MOVSB", 0, 1, 0xBB), ("MOVSB", 1, 4, 0x6B),
+               ("MOVSB", 0, 5, 0xBB), ("MOVSB", 3, 2, 0xE7),
+               ("STOSD", 1, 1, 0xCAFEBABE), ("STOSD", 0, 1, 0x332211BB),
+               ("MOVSD", 1, 1, 0x0BADF00D), ("MOVSD", 0, 1, 0x776655BB)]
+# quick tier: (variant, index in REP_PATCHES); first / middle / last byte, whole immediate and whole instruction, every
+# placement and every string instruction are present
+REP_QUICK = [("rep-same-block-after", 0), ("rep-next-instruction", 1), ("rep-other-block", 2),
+             ("rep-same-block-after", 3), ("rep-same-block-after", 7), ("rep-next-instruction", 8),
+             ("rep-other-block", 13), ("rep-same-block-after", 15)]
+
+# ---- host write to the last instruction of a translated range, after an invalidation step --------------------------
+# P = the unconditional branch ending the loop body; the code after it (`fall`) is never translated before the write,
+# so P's last byte is the last byte of a contiguous range of translated code.  Patching P's displacement byte sends it
+# to t2, patching its opcode / condition byte makes it a not-taken conditional branch (falls through to `fall`).
+# The guest store executes in the second iteration only; it hits the (dead) first byte of `main` in the "automod"
+# histories (handled EXCEPT_CODE_AUTOMOD, nothing new is translated afterwards) and the stack page otherwise.
+X86_TAIL = """
+main:
+    MOV ECX, 3
+mid:
+    XOR EBX, EBX
+    XOR EDX, EDX
+    XOR ESI, ESI
+    XOR EDI, EDI
+loop:
+    INC EDI
+    CMP ECX, 2
+    JNZ skip
+    MOV BYTE PTR [EBP], 0x90
+skip:
+    ADD EBX, 5
+patched:
+    JMP t1
+fall:
+    ADD EDX, 7
+    JMP t1
+t2:
+    INC ESI
+t1:
+    DEC ECX
+    JNZ loop
+    RET
+"""
+ARM_TAIL = """
+main:
+    MOV R2, 3
+mid:
+    MOV R1, 0
+    MOV R5, 0
+    MOV R6, 0
+loop:
+    ADD R6, R6, 1
+    CMP R2, 2
+    BNE skip
+    STRB R3, [R4]
+skip:
+    ADD R1, R1, 5
+patched:
+    B t1
+fall:
+    ADD R0, R0, 7
+    B t1
+t2:
+    ADD R5, R5, 1
+t1:
+    SUBS R2, R2, 1
+    BNE loop
+    BX LR
+"""
+INVALS = ["none", "add_bp", "set_bp", "add_bp_mid", "automod"]
+
 # patch descriptions: (byte offset in P, width in bytes, value) — every value gives a valid instruction that does not
 # touch the loop counter
 X86_PATCHES = [(0, 1, 0xBB), (0, 1, 0xBA), (0, 1, 0xBE), (1, 1, 0x99), (2, 1, 0x00), (3, 1, 0xFF), (4, 1, 0x7F),
@@ -177,10 +312,35 @@ def store_text(arch, width, value):
 _asm_cache = {}
 
 
-def build(arch, variant, width, value):
+def rep_store_text(insn, count, value):
+    lines = ["MOV EDI, EBP", "MOV ECX, %d" % count]
+    if insn.startswith("STOS"):
+        lines.append("MOV EAX, 0x%X" % (value if REP_UNIT[insn] == 4 else value * 0x01010101))
+    else:
+        lines.append("MOV ESI, 0x%X" % jitlab.layout("x86_32")["data"])
+    lines.append("REP " + insn)
+    return "\n    ".join(lines)
+
+
+def rep_bytes(hist):
+    """bytes written by the REP instruction of a rep-* history"""
+    unit = REP_UNIT[hist["insn"]]
+    return jitlab.pack(hist["value"], unit, False) * hist["count"]
+
+
+def build(arch, variant, width, value, hist=None):
     key = (arch, variant, width, value if arch == "x86_32" else 0)
+    if variant.startswith("rep-"):
+        key = (arch, variant, hist["insn"], hist["count"], hist["value"])
+    elif variant == "host-tail":
+        key = (arch, variant)
     if key not in _asm_cache:
-        text = (X86 if arch == "x86_32" else ARM)[variant].replace("{store}", store_text(arch, width, value))
+        if variant.startswith("rep-"):
+            text = X86_REP[variant].replace("{store}", rep_store_text(hist["insn"], hist["count"], hist["value"]))
+        elif variant == "host-tail":
+            text = X86_TAIL if arch == "x86_32" else ARM_TAIL
+        else:
+            text = (X86 if arch == "x86_32" else ARM)[variant].replace("{store}", store_text(arch, width, value))
         lay = jitlab.layout(arch)
         try:
             code, labels = jitlab.assemble(arch, text, lay["code"])
@@ -194,7 +354,7 @@ def build(arch, variant, width, value):
 def make_scenario(hist, backend, retranslate):
     """hist: dict(arch, variant, off, width, value, writer, stop_at, hit) -> scenario"""
     arch = hist["arch"]
-    code, labels = build(arch, hist["variant"], hist["width"], hist["value"])
+    code, labels = build(arch, hist["variant"], hist["width"], hist["value"], hist)
     if code is None:
         return None
     lay = jitlab.layout(arch)
@@ -203,11 +363,36 @@ def make_scenario(hist, backend, retranslate):
         regs_extra = {"EBP": target}
     else:
         regs_extra = {"R4": target, "R3": hist["value"]}
-    scn = jitlab.call_scenario(arch, code, [], [], code_addr=labels["__base__"], entry=labels["main"])
+    dpages = []
+    if hist["variant"].startswith("rep-"):
+        dpages = [[lay["data"], 3, rep_bytes(hist).ljust(0x20, b"\xcc"), "data"]]
+    if hist["variant"] == "host-tail":
+        # the guest store: dead code of `main` (handled automod event) or the bottom of the stack page
+        dead = labels["main"] if hist["inval"] == "automod" else lay["stack"] + 0x10
+        regs_extra = {"EBP": dead} if arch == "x86_32" else {"R4": dead, "R3": 0x90}
+    scn = jitlab.call_scenario(arch, code, [], dpages, code_addr=labels["__base__"], entry=labels["main"])
     scn["regs"].update(regs_extra)
     scn["step_limit"] = STEP_LIMIT
-    script = [scn["script"][0], ["bp", "L", labels["after"], {"log_regs": LOG_REGS[arch]}]]
-    if hist["variant"] == "host":
+    log_at = labels["t1"] if hist["variant"] == "host-tail" else labels["after"]
+    script = [scn["script"][0], ["bp", "L", log_at, {"log_regs": LOG_REGS[arch]}]]
+    if hist["variant"] == "host-tail":
+        script.append(["bp", "H", labels[hist["stop_at"]], {"ret_at": {str(hist["hit"]): "false"}}])
+        script.append(["init_run", labels["main"]])
+        script.append(["cont"])
+        # invalidation step, immediately followed by the host write (nothing is translated in between)
+        if hist["inval"] == "add_bp":
+            script.append(["bp", "X", labels["main"], {}])
+        elif hist["inval"] == "set_bp":
+            script.append(["set_bp", "X", labels["skip"], {}])
+        elif hist["inval"] == "add_bp_mid":
+            script.append(["bp", "X", labels["mid"], {}])
+        data = jitlab.pack(hist["value"], hist["width"], False)
+        if hist["writer"] == "set_mem":
+            script.append(["set_mem", target, data.hex()])
+        else:
+            script.append(["set_u", 8 * hist["width"], target, hist["value"]])
+        script.append(["cont"])
+    elif hist["variant"] == "host":
         stop = labels[hist["stop_at"]]
         script.append(["bp", "H", stop, {"ret_at": {str(hist["hit"]): "false"}}])
         script.append(["init_run", labels["main"]])
@@ -254,8 +439,14 @@ def judge(lab, hist, backend):
     rterm = c20.term_tuple(ref)
     if rterm[0] == "pyexc":
         return "dropped:reference-unsupported:%s" % rterm[1]
-    pre = "%s|%s|%s|%s" % (hist["arch"], backend, hist["variant"],
-                           hist["writer"] + ("@" + hist["stop_at"] if hist["variant"] == "host" else ""))
+    wr = hist["writer"]
+    if hist["variant"] == "host":
+        wr += "@" + hist["stop_at"]
+    elif hist["variant"] == "host-tail":
+        wr += "@%s-after-%s" % (hist["stop_at"], hist["inval"])
+    elif hist["variant"].startswith("rep-"):
+        wr += "-rep-" + hist["insn"].lower()
+    pre = "%s|%s|%s|%s" % (hist["arch"], backend, hist["variant"], wr)
     what = "byte%d/%d" % (hist["off"], hist["width"])
     desc = "history %r" % (hist,)
     if "died" in got:
@@ -290,6 +481,74 @@ def histories(arch):
     return out
 
 
+def rep_histories(tier):
+    """x86_32: P overwritten by a REP STOS / REP MOVS (multi-irblock writer).  Deterministic."""
+    out = []
+    if tier == "thorough":
+        sel = [(v, i) for i in range(len(REP_PATCHES)) for v in sorted(X86_REP)]
+    else:
+        sel = REP_QUICK
+    for variant, i in sel:
+        insn, off, count, value = REP_PATCHES[i]
+        out.append(dict(arch="x86_32", variant=variant, off=off, width=REP_UNIT[insn] * count, value=value,
+                        writer="guest", stop_at="", hit=0, insn=insn, count=count))
+    return out
+
+
+def tail_patches(arch):
+    """-> [(off, value)] for the branch P of the host-tail template: [first byte, last byte], or None when the
+    assembler's encoding / layout is not the expected one.  Whatever order the assembler gives to the blocks, the
+    instruction placed right after P must be t2 or fall (neither is executed before the host write)."""
+    code, labels = build(arch, "host-tail", 1, 0)
+    if code is None:
+        return None
+    pa = labels["patched"]
+    p = pa - labels["__base__"]
+    if arch == "x86_32":
+        # EB rel8: first byte -> 74 (JZ, not taken: ZF is clear after ADD EBX, 5), last byte -> rel8 of t2 / fall
+        if code[p] != 0xEB or pa + 2 not in (labels["t2"], labels["fall"]):
+            return None
+        for name in ("t2", "fall"):
+            rel = labels[name] - (pa + 2)
+            if -128 <= rel <= 127 and (rel & 0xFF) != code[p + 1]:
+                return [(0, 0x74), (1, rel & 0xFF)]
+        return None
+    # arml `B t1` = imm24 (3 low bytes), EA: first byte -> t2 / fall when only the low byte of imm24 changes,
+    # last byte -> 0A (BEQ, not taken: R2 != 2)
+    if code[p + 3] != 0xEA or pa + 4 not in (labels["t2"], labels["fall"]):
+        return None
+    for name in ("t2", "fall"):
+        imm = ((labels[name] - (pa + 8)) >> 2) & 0xFFFFFF
+        if imm >> 8 == code[p + 1] | code[p + 2] << 8 and (imm & 0xFF) != code[p]:
+            return [(0, imm & 0xFF), (3, 0x0A)]
+    return None
+
+
+def tail_histories(tier):
+    """Host write to the first / last byte of the last instruction of a translated range, directly after an
+    invalidation step.  Deterministic."""
+    out = []
+    for arch in ("x86_32", "arml"):
+        pt = tail_patches(arch)
+        if pt is None:
+            continue
+        first, last = pt
+        if tier == "thorough":
+            sel = [(p, inval, writer, stop_at) for p in (last, first) for inval in INVALS
+                   for writer in ("set_mem", "set_u") for stop_at in ("loop", "patched")]
+        elif arch == "x86_32":
+            sel = [(last, inval, "set_mem", "loop") for inval in INVALS]
+            sel += [(last, "add_bp", "set_u", "loop"), (last, "automod", "set_u", "patched"),
+                    (first, "add_bp", "set_mem", "loop"), (first, "automod", "set_mem", "loop")]
+        else:
+            sel = [(last, "add_bp", "set_mem", "loop"), (last, "automod", "set_mem", "loop"),
+                   (first, "set_bp", "set_u", "loop")]
+        for (off, value), inval, writer, stop_at in sel:
+            out.append(dict(arch=arch, variant="host-tail", off=off, width=1, value=value, writer=writer,
+                            stop_at=stop_at, hit=3, inval=inval))
+    return out
+
+
 class C22(Check):
     pid = "C22"
     needs_build = True
@@ -298,7 +557,11 @@ class C22(Check):
             "same block, immediately before P in the same block, in another block) or by the host (vm.set_mem, "
             "vm.set_u8/16/32) while stopped on a breakpoint at the loop head, on P, or right after P; fixed patch "
             "values (10 for x86_32, 8 for arml; every other one in the quick tier, all in thorough), plus seeded random immediates "
-            "and stop iterations; both backends; reference = same history with the translation cache cleared "
+            "and stop iterations; plus x86_32 REP STOSB/STOSD/MOVSB/MOVSD writers (multi-irblock instructions; counts "
+            "1-5 on P's first / middle / last byte, immediate, whole instruction; 3 placements; 8 histories quick, 51 "
+            "thorough) and host writes to the first / last byte of the branch ending a translated range directly after "
+            "an invalidation step (none, add_breakpoint / set_breakpoint on a translated block start, add_breakpoint "
+            "inside a translated block, handled automod event; x86_32 and arml; 12 histories quick, 80 thorough); both backends; reference = same history with the translation cache cleared "
             "before every instruction. Non-trivial: P executes before and after the write (every history, by "
             "construction); distinct by (history, backend).")
     assumptions = ["python and gcc backends only (llvmlite absent)",
@@ -332,6 +595,14 @@ class C22(Check):
         owner = {g: i % nshards for i, g in enumerate(groups)}
         mine = [h for h in hs if owner.get((h["arch"], h["off"], h["width"], h["value"])) == shard]
         res.exhaustive["fixed-patch-histories"] = (tier == "thorough")
+        # multi-irblock writers and range-end host writes after an invalidation: deterministic, spread over the shards
+        # starting with the least loaded ones
+        th = tail_histories(tier)
+        if not th:
+            res.dropped["assembler:host-tail-encoding"] += 1
+        for i, h in enumerate(rep_histories(tier) + th):
+            if (len(groups) + i) % nshards == shard:
+                mine.append(h)
         nrand = 40 if tier == "thorough" else 2
         for _ in range(nrand):
             arch = rng.choice(["x86_32", "arml"])
@@ -363,6 +634,10 @@ class C22(Check):
                     res.counters["writer:" + h["writer"]] += 1
                     res.counters["backend:" + backend] += 1
                     res.counters["patched-bytes:%d@%d" % (h["width"], h["off"])] += 1
+                    if "insn" in h:
+                        res.counters["multi-irblock-writer:REP " + h["insn"]] += 1
+                    if "inval" in h:
+                        res.counters["range-end-write-after:" + h["inval"]] += 1
                     if r != "ok":
                         res.fail(r[0], r[1], dict(h, backend=backend))
             if lab.stats["timeout"]:
